@@ -21,8 +21,9 @@ def main():
             props = a.split("=", 1)[1].split(",")
         if a == "--no-baseline":
             baseline = False
+    filed = "--filed" in sys.argv  # re-validate an already filed seed in place (strict baseline, current HEAD)
     src = f"/tmp/seed_out/{pid}/{i}"
-    if not os.path.isdir(src):
+    if filed or not os.path.isdir(src):
         src = f"/verif/seeded/{pid}-{i}"
     wt = f"/tmp/val_wt_{pid}_{i}"
     sh(f"git -C /repo worktree remove --force {wt}")
@@ -51,8 +52,15 @@ def main():
         res["checks"] = caught
         valid = res["demo_pristine_exit"] == 0 and res["patch_applies"] and res["demo_patched_exit"] != 0 and res.get("baseline_ok", True)
         res["valid"] = valid
+        res["strict_baseline"] = True
+        res["base"] = sh("git -C /repo log -1 --format=%h").stdout.strip()
         print(json.dumps(res, indent=1))
-        if valid and src.startswith("/tmp/seed_out"):
+        if filed:
+            mp = f"{src}/meta.json"
+            meta = json.load(open(mp))
+            meta["validation"] = {k: v for k, v in res.items() if k != "checks"}
+            json.dump(meta, open(mp, "w"), indent=1)
+        elif valid and src.startswith("/tmp/seed_out"):
             dst = f"/verif/seeded/{pid}-{i}"
             os.makedirs(dst, exist_ok=True)
             for f in os.listdir(src):
